@@ -19,7 +19,7 @@ use crate::rng::{mix, Rng};
 use crate::watch;
 
 pub fn plan(tier: &str) -> u64 {
-    n_rounds_cases(tier) + n_destroy_cases(tier) + n_spin_cases(tier)
+    n_rounds_cases(tier) + n_destroy_cases(tier) + n_spin_cases(tier) + n_nested_cases(tier)
 }
 
 fn n_rounds_cases(tier: &str) -> u64 {
@@ -36,6 +36,117 @@ fn n_destroy_cases(tier: &str) -> u64 {
     } else {
         12 * DESTROY_POSITIONS
     }
+}
+
+fn n_nested_cases(tier: &str) -> u64 {
+    if tier == "quick" {
+        8
+    } else {
+        48
+    }
+}
+
+/// Close arrives while a memtable flush runs *inside* a table compaction. That flush, like every
+/// finished piece of background work, wakes everybody who waits for background work - also a close
+/// that must go on waiting, because the compaction round it belongs to is not over. The lock may
+/// only be released once no background round is scheduled any more (raindb's hook at the release
+/// reports that flag), and the data must be complete after a reopen.
+fn case_close_during_nested_flush(out: &mut CaseOut, seed: u64, idx: u64) {
+    use crate::director::COMPACTOR;
+    let mut rng = Rng::new(mix(&[seed, idx], "c17-nested"));
+    let d = director();
+    d.reset(rng.next_u64());
+    let scratch = Scratch::new(300_000 + idx);
+    let use_tmpfs = idx % 2 == 0;
+    let tmpfs_holder;
+    let (fs, db_path): (Arc<dyn FileSystem>, String) = if use_tmpfs {
+        tmpfs_holder = Arc::new(TmpFileSystem::new(Some(&scratch.dir)));
+        (tmpfs_holder.clone() as Arc<dyn FileSystem>, "db".to_string())
+    } else {
+        (Arc::new(OsFileSystem::new()), scratch.dir.join("db").to_string_lossy().to_string())
+    };
+    let memtable = 1024usize;
+    let ctx = json!({"family": "close-during-flush-nested-in-a-table-compaction", "filesystem": if use_tmpfs { "TmpFileSystem" } else { "OsFileSystem" }});
+    let db = match DB::open(options(&fs, &db_path, memtable)) {
+        Ok(db) => db,
+        Err(e) => {
+            out.violate("C17/owner-open-failed-although-nobody-holds-the-database", json!({"ctx": ctx, "error": e.to_string()}));
+            return;
+        }
+    };
+    let mut model: BTreeMap<Vec<u8>, Vec<u8>> = BTreeMap::new();
+    let mut counter = 0u64;
+    let mut put = |db: &DB, model: &mut BTreeMap<Vec<u8>, Vec<u8>>, counter: &mut u64| -> bool {
+        *counter += 1;
+        let k = format!("k{:03}", *counter % 40).into_bytes();
+        let v = format!("v{}-{}", *counter, "z".repeat(40)).into_bytes();
+        let _g = watch::enter("put(owner)");
+        if db.put(WriteOptions::default(), k.clone(), v.clone()).is_ok() {
+            model.insert(k, v);
+            true
+        } else {
+            false
+        }
+    };
+    // overlapping level-0 files until the first table compaction starts and parks in its merge
+    let gate_a = d.arm(COMPACTOR, "compact.step", 1);
+    for _ in 0..6000 {
+        if d.is_arrived(gate_a) || !put(&db, &mut model, &mut counter) {
+            break;
+        }
+    }
+    let in_merge = d.wait_arrived(gate_a, Duration::from_secs(5));
+    // one memtable rotation while the compaction is parked: an immutable memtable is pending
+    let rot0 = d.note_count("mem.rotate");
+    let mut rotated = false;
+    if in_merge {
+        for _ in 0..400 {
+            // (a memtable that was rotated just before the compaction parked is as good: writing
+            // on would wait for its flush, which the parked thread cannot do)
+            if db.verif_probe().has_immutable_memtable || d.note_count("mem.rotate") > rot0 {
+                rotated = true;
+                break;
+            }
+            if !put(&db, &mut model, &mut counter) {
+                break;
+            }
+        }
+    }
+    let gate_b = d.arm(COMPACTOR, "flush.after_build", 1);
+    d.release(gate_a);
+    let in_nested_flush = rotated && d.wait_arrived(gate_b, Duration::from_secs(10));
+    let notes0 = d.notes_from(0).len();
+    let closer = std::thread::Builder::new().name("c17-closer".into()).spawn(move || {
+        set_role(1);
+        let _g = watch::enter("close(owner)");
+        drop(db);
+    }).unwrap();
+    // let the close reach its wait for background work, then let the nested flush finish
+    std::thread::sleep(Duration::from_millis(rng.range(10, 40)));
+    d.release(gate_b);
+    let _ = closer.join();
+    out.add("closes_during_nested_flush", in_nested_flush as u64);
+    let released_while_scheduled = d.notes_from(notes0).iter().any(|(name, args)| *name == "close.lock_released" && args.first() == Some(&1));
+    if released_while_scheduled {
+        out.violate(
+            "C17/lock-released-while-a-background-round-was-still-scheduled",
+            json!({"ctx": ctx, "compaction_parked_in_merge": in_merge, "memtable_rotated_meanwhile": rotated, "nested_flush_parked_after_building_its_table": in_nested_flush}),
+        );
+    }
+    match DB::open(options(&fs, &db_path, memtable)) {
+        Ok(db) => {
+            verify_contents(out, &db, &model, "after-close-during-nested-flush", &ctx);
+            drop(db);
+        }
+        Err(e) => out.violate("C17/owner-open-failed-although-nobody-holds-the-database", json!({"ctx": ctx, "error": e.to_string(), "files": listing(&scratch.dir)})),
+    }
+    if in_nested_flush {
+        out.nontrivial(format!("close-during-nested-flush/{}", if use_tmpfs { "tmpfs" } else { "osfs" }));
+    } else {
+        out.add("nested_flush_window_not_reached", 1);
+    }
+    let _ = DB::destroy_database(options(&fs, &db_path, memtable));
+    out.sample = Some(json!({"family": "close-during-nested-flush", "ctx": ctx, "compaction_parked_in_merge": in_merge, "memtable_rotated_meanwhile": rotated, "nested_flush_reached": in_nested_flush}));
 }
 
 fn n_spin_cases(tier: &str) -> u64 {
@@ -498,6 +609,10 @@ fn verify_contents(out: &mut CaseOut, db: &DB, model: &BTreeMap<Vec<u8>, Vec<u8>
 
 pub fn run_case(tier: &str, seed: u64, idx: u64) -> CaseOut {
     let mut out = CaseOut::new();
+    if idx >= n_rounds_cases(tier) + n_destroy_cases(tier) + n_spin_cases(tier) {
+        case_close_during_nested_flush(&mut out, seed, idx - n_rounds_cases(tier) - n_destroy_cases(tier) - n_spin_cases(tier));
+        return out;
+    }
     if idx >= n_rounds_cases(tier) + n_destroy_cases(tier) {
         case_destroy_spin(&mut out, seed, idx - n_rounds_cases(tier) - n_destroy_cases(tier));
         return out;
